@@ -242,10 +242,11 @@ class Fxp():
                 val = utils.scale_raw(val if isinstance(val, int) else _raw_val, self.n_frac - n_frac)
         self.set_val(val, raw=raw)
 
-        if dtype is not None and complex_flag and self.vdtype != complex:
+        if dtype is not None and complex_flag:
             # a complex format was asked by the dtype string: a real value stored in it reads as complex (like a raw or a fixed-point value does)
-            self.vdtype = complex
-            self._update_dtype()
+            if self.vdtype != complex:
+                self.vdtype = complex
+                self._update_dtype()
             self._hold_complex_codes()
 
     # ---
@@ -525,7 +526,8 @@ class Fxp():
     def _hold_complex_codes(self):
         # the codes of an object made complex by a dtype string are held as complex numbers too
         # (a complex value written by index later must not lose its imaginary part)
-        if isinstance(self.val, np.ndarray) and self.val.dtype.kind in 'iu':
+        if isinstance(self.val, np.ndarray) and self.val.dtype.kind in 'iu' and self.n_word <= 53:
+            # (codes of more than 53 bits stay integers: the components of a numpy complex number are doubles)
             self.val = self.val.astype(complex) if self.val.ndim > 0 else self.val.astype(complex)[()]
             self.real = self.astype(complex).real
             self.imag = self.astype(complex).imag
